@@ -368,8 +368,18 @@ pub fn scalar_strategy(n: &BigUint, class: usize) -> BoxedStrategy<BigUint> {
             // k = +-(m * 2^z) / b with a short odd denominator: the reduced fraction (c0, c1) that the internal splits
             // recover has whole low bytes / words of c0 (or c1) equal to zero, which exercises their sign and carry handling
             let half = n.bits() / 2;
-            (prop::collection::vec(any::<u8>(), 40), prop::collection::vec(any::<u8>(), 40), prop::sample::select(vec![8u64, 16, 24, 32, 64]), 8u64..100, 1u64..100, any::<bool>(), any::<bool>())
-                .prop_map(move |(mraw, braw, z, mb, bb, negate, swap)| {
+            (prop::collection::vec(any::<u8>(), 40), prop::collection::vec(any::<u8>(), 40), prop::sample::select(vec![8u64, 16, 24, 32, 64]), 8u64..100, 1u64..100, any::<bool>(), any::<bool>(), 0u8..4, 0u64..6)
+                .prop_map(move |(mraw, braw, z, mb, bb, negate, swap, pure, dj)| {
+                    if pure == 0 {
+                        // one coordinate of the short vector is a pure power of two around the half size (2^(half-3) .. 2^(half+2)):
+                        // its two's complement has all low words zero
+                        let j = (half + dj).saturating_sub(3);
+                        let p2 = BigUint::one() << j;
+                        let a = (sized(&braw, bb.min(half.saturating_sub(4)).max(1)) | BigUint::one()) % &n;
+                        let (num, den) = if swap { (a, p2) } else { (p2, a) };
+                        let x = (num % &n) * pf::inv_euclid(&(den % &n), &n).unwrap_or_else(BigUint::one) % &n;
+                        return if negate { pf::neg(&x, &n) } else { x };
+                    }
                     let mb = mb.min(half.saturating_sub(z + 10)).max(1);
                     let bb = bb.min(half.saturating_sub(10)).max(1);
                     let m = sized(&mraw, mb) << z;
